@@ -237,7 +237,7 @@ func RunWitnessesOf(self, repo, verif, prop string, seed int) []WitnessResult {
 		idxs = append(idxs[k:], idxs[:k]...)
 	}
 	results := make([]WitnessResult, len(idxs))
-	sem := make(chan struct{}, 8)
+	sem := make(chan struct{}, 12)
 	var wg sync.WaitGroup
 	for n, i := range idxs {
 		wg.Add(1)
